@@ -1182,6 +1182,9 @@ func validateConnectionPool(settings *networking.ConnectionPoolSettings) (errs e
 	return errs
 }
 
+// maxRingHashMinimumRingSize is the largest minimum_ring_size Envoy's ring hash load balancer accepts.
+const maxRingHashMinimumRingSize = 8388608
+
 func validateLoadBalancer(settings *networking.LoadBalancerSettings, outlier *networking.OutlierDetection) (errs Validation) {
 	if settings == nil {
 		return errs
@@ -1193,6 +1196,17 @@ func validateLoadBalancer(settings *networking.LoadBalancerSettings, outlier *ne
 		httpCookie := consistentHash.GetHttpCookie()
 		if httpCookie != nil && httpCookie.GetName() == "" {
 			errs = AppendValidation(errs, fmt.Errorf("name required for HttpCookie"))
+		}
+		if h, ok := consistentHash.GetHashKey().(*networking.LoadBalancerSettings_ConsistentHashLB_HttpHeaderName); ok && h.HttpHeaderName == "" {
+			errs = AppendValidation(errs, fmt.Errorf("httpHeaderName must not be empty"))
+		}
+		if q, ok := consistentHash.GetHashKey().(*networking.LoadBalancerSettings_ConsistentHashLB_HttpQueryParameterName); ok && q.HttpQueryParameterName == "" {
+			errs = AppendValidation(errs, fmt.Errorf("httpQueryParameterName must not be empty"))
+		}
+		// Envoy accepts a minimum ring size of at most 8388608 (8M) and rejects the whole cluster otherwise
+		if consistentHash.MinimumRingSize > maxRingHashMinimumRingSize || // nolint: staticcheck
+			consistentHash.GetRingHash().GetMinimumRingSize() > maxRingHashMinimumRingSize {
+			errs = AppendValidation(errs, fmt.Errorf("minimumRingSize must not exceed %d", maxRingHashMinimumRingSize))
 		}
 		if httpCookie != nil && len(httpCookie.GetAttributes()) > 0 {
 			// Validate that cookie attribute names are unique
